@@ -43,6 +43,12 @@ def special_frame(rng, n):
         b = bytearray(n)
     elif n >= 2 and r < 0.4:
         b[0:2] = b"\x5a\x5a"
+    elif n >= 3 and r < 0.47:
+        # looks like an appliance frame that announces fewer bytes than it has, the rest zero (or not)
+        b[0] = 0xAA
+        b[1] = rng.randrange(0, n - 1)
+        if rng.random() < 0.7:
+            b[b[1] + 1:] = bytes(n - b[1] - 1)
     return bytes(b)
 
 
@@ -58,6 +64,10 @@ def run(plan):
     def handler(conn, frame, key, d):
         return [state["reply"]] + list(state["post"])
     dev.raw_frame_handler = handler
+    if cfg.get("unit_id") is not None:
+        dev.resp_device_id = cfg["unit_id"]          # the unit stamps its answers with its real id
+    if cfg.get("unit_ts"):
+        dev.resp_ts = bytes.fromhex(cfg["unit_ts"])
 
     async def main(w):
         lan = w.ns.LAN(s_host(), 6444, cfg["device_id"])
@@ -148,7 +158,7 @@ def run(plan):
         res.fail(f"liveness: {type(e).__name__}", str(e))
     res.take(w)
     res.add_fired(dev.fired)
-    res.key = (cfg["device_id"], tuple(cfg.get("epoch", ())), tuple((o.get("frame"), o.get("reply")) for o in plan["ops"]))
+    res.key = (cfg["device_id"], cfg.get("unit_id"), cfg.get("unit_ts"), tuple(cfg.get("epoch", ())), tuple((o.get("frame"), o.get("reply")) for o in plan["ops"]))
     res.nontrivial = True
     for o in plan["ops"]:
         if o["op"] == "send":
@@ -190,6 +200,12 @@ def space(tier):
                 op = dict(op, reply=special_frame(rng, rng.randint(0, 255)).hex(), reuse_buffer=True)
                 op.pop("post", None)
             ops.append(op)
-        return {"config": {"version": 2, "device_id": rand_id(rng), "epoch": ep}, "ops": ops}
+        c = {"version": 2, "device_id": rand_id(rng), "epoch": ep}
+        if rng.random() < 0.25:
+            c["device_id"] = rng.choice([0, 0, 1, c["device_id"]])       # e.g. the CLI default: id 0
+            c["unit_id"] = rng.choice([rng.getrandbits(48), 2 ** 64 - 1, 1])
+        if rng.random() < 0.25:
+            c["unit_ts"] = rng.choice(["eaa908020c081714", "ff" * 8, "00000000000d0000", "6363636363636363", rand_bytes(rng, 8).hex()])
+        return {"config": c, "ops": ops}
     sp.add("random", 20000 if tier == "quick" else 600_000, rnd)
     return sp
